@@ -200,6 +200,38 @@ pub fn run_sequence(kind: Kind, entry: Entry, cfg: u8, bufs: &[&[u8]], cap: usiz
     out
 }
 
+/// An uninit entry point called on a fresh value that owns a non-empty array of its own
+/// (`decoy` sentinel headers): the call must parse into the uninit slice of `ucap` slots and
+/// never into the value's own array. Returns the state after the call and whether the
+/// value's own array (and, after a non-Complete call, its `headers` slice) was left alone.
+pub fn uninit_with_decoy(kind: Kind, entry: Entry, cfg: u8, buf: &[u8], ucap: usize, decoy: usize) -> (StepObs, bool) {
+    static SENT_NAME: &str = "decoy-sentinel";
+    static SENT_VALUE: &[u8] = b"decoy value";
+    let op = Op { entry, cfg, ucap };
+    let mut own: Vec<Header<'_>> = vec![Header { name: SENT_NAME, value: SENT_VALUE }; decoy];
+    let own_ptr = own.as_ptr() as usize;
+    let mut u: Vec<MaybeUninit<Header<'_>>> = vec![MaybeUninit::uninit(); ucap];
+    let hs = |h: &[Header<'_>]| h.iter().map(|h| (sl(h.name.as_bytes()), sl(h.value))).collect::<Vec<_>>();
+    let rs = |r: Option<&str>| r.map(|s| (if s.is_empty() { 0 } else { s.as_ptr() as usize }, s.as_bytes().to_vec()));
+    let (obs, untouched_slice) = if kind == Kind::Request {
+        let mut req = Request::new(&mut own[..]);
+        let st = req_call(&mut req, op, buf, &mut u[..]);
+        let complete = matches!(st, St::Complete(_));
+        let headers = if complete { hs(&*req.headers) } else { vec![] };
+        let ok = complete || (req.headers.as_ptr() as usize == own_ptr && req.headers.len() == decoy);
+        (StepObs { st, method: req.method.map(|s| sl(s.as_bytes())), path: req.path.map(|s| sl(s.as_bytes())), version: req.version, code: None, reason: None, headers }, ok)
+    } else {
+        let mut resp = Response::new(&mut own[..]);
+        let st = resp_call(&mut resp, op, buf, &mut u[..]);
+        let complete = matches!(st, St::Complete(_));
+        let headers = if complete { hs(&*resp.headers) } else { vec![] };
+        let ok = complete || (resp.headers.as_ptr() as usize == own_ptr && resp.headers.len() == decoy);
+        (StepObs { st, method: None, path: None, version: resp.version, code: resp.code, reason: rs(resp.reason), headers }, ok)
+    };
+    let own_intact = own.iter().all(|h| h.name.as_ptr() == SENT_NAME.as_ptr() && h.value.as_ptr() == SENT_VALUE.as_ptr());
+    (obs, untouched_slice && own_intact)
+}
+
 /// aux = [entry, cfg, ucap, kind, a, b] per history op, then the probe's ucap.
 /// kind 0: the op parses its own buffer rec.bufs[i]; kind 1: it parses arena[a..b], a slice
 /// of the *same allocation* as the probe (arena = bufs[n] ++ probe ++ bufs[n+1]).
@@ -379,7 +411,33 @@ pub fn gen_history(u: &mut Choice, profile: &Profile) -> CaseRec {
             b = p0 + (k + jitter).min(pbuf.len());
             vec![]
         } else {
-            match u.weighted(&[100, 40, 30, 36, 50]) {
+            match u.weighted(&[100, 40, 30, 36, 50, 60]) {
+                5 => {
+                    // a near-copy of the probe: a few bytes deleted / inserted / case-flipped in
+                    // its first 40 bytes (a method, target or reason that is a proper prefix or
+                    // extension of the probe's, or equal up to case)
+                    let mut b = pbuf.clone();
+                    if !b.is_empty() {
+                        let o = u.below(b.len().min(40));
+                        match u.below(3) {
+                            0 => {
+                                let n = (1 + u.below(3)).min(b.len() - o);
+                                b.drain(o..o + n);
+                            }
+                            1 => {
+                                for _ in 0..1 + u.below(3) {
+                                    b.insert(o, b"SxA/z-9"[u.below(7)]);
+                                }
+                            }
+                            _ => {
+                                if b[o].is_ascii_alphabetic() {
+                                    b[o] ^= 0x20;
+                                }
+                            }
+                        }
+                    }
+                    b
+                }
                 0 => gen::message(u, kind_of(kind, pentry), profile).0,
                 1 => {
                     let k = u.below(pbuf.len() + 1);
